@@ -11,7 +11,7 @@ RES := $(shell $(CXX) -print-resource-dir)
 
 COMMON := -std=c++17 -g -fno-omit-frame-pointer -Wno-unknown-pragmas -I$(VERIF_REPO)/src -I$(VERIF_DIR)harness
 ifeq ($(FLAVOUR),san)
-  FL := -O1 -fsanitize=address,undefined,fuzzer-no-link -fno-sanitize-recover=all -fno-sanitize=alignment,nonnull-attribute
+  FL := -O1 -fsanitize=address,undefined,fuzzer-no-link -fno-sanitize-recover=all -fno-sanitize=alignment,nonnull-attribute,null
   LIBFL := $(FL) -D_GLIBCXX_SANITIZE_VECTOR
   LINK := -fsanitize=address,undefined $(RES)/lib/linux/libclang_rt.fuzzer_no_main-x86_64.a
   MAIN := main
